@@ -90,3 +90,58 @@ Definition cmtf_reported (sX sY : list nat) (X LX Y LY : list nat -> R) : R :=
 Theorem cmtf_reported_value sX sY X LX Y LY :
   cmtf_reported sX sY X LX Y LY = dist2 Rops sX X LX + dist2 Rops sY Y LY.
 Proof. unfold cmtf_reported. rewrite !sqrt_sqrt by apply dist2_nonneg. reflexivity. Qed.
+
+(* ---------------------------------------------------------------- round 6: the finiteness clause, exactly as far as it can be stated over R.
+   In exact arithmetic the quantity under each shortcut's square root is a squared residual, hence NON-NEGATIVE: the square root is taken of a
+   non-negative number even without the abs, the reported value is a non-negative real, and for ||X|| > 0 it is the quotient of two real
+   numbers with a non-zero denominator.  So a NaN (or a negative argument) can only come from ROUNDING (a perturbation delta of the exact
+   argument, caught by the abs: abs_guard_total) or from ||X|| = 0 (0/0), never from the formulas. *)
+Definition finite_report (q nx : R) : Prop := sqrt_arg_ok q /\ sqrt nx <> 0 /\ 0 <= reported q nx /\ reported q nx = sqrt q / sqrt nx.
+Lemma finite_report_of_nonneg q nx : 0 <= q -> 0 < nx -> finite_report q nx.
+Proof.
+  intros Hq Hn. unfold finite_report, sqrt_arg_ok. split; [exact Hq|]. split; [apply Rgt_not_eq, sqrt_lt_R0; exact Hn|].
+  rewrite (reported_of_nonneg q nx Hq). split; [apply rel_error_nonneg | reflexivity].
+Qed.
+Theorem error_calc_argument_nonneg s (X : list nat -> R) Rk (w u v : nat -> R) cols n :
+  (n < length s)%nat -> (forall r, (r < Rk)%nat -> length (cols r) = length s) -> (forall r, (r < Rk)%nat -> u r * v r = w r) ->
+  0 < normsq Rops s X -> finite_report (err2_fast Rops s X Rk w u v cols n) (normsq Rops s X).
+Proof.
+  intros Hn Hc Hw Hx. apply finite_report_of_nonneg; [|exact Hx].
+  rewrite (err2_fast_correct Rops Rth s X Rk w u v cols n Hn Hc Hw). apply dist2_nonneg.
+Qed.
+Theorem hooi_argument_nonneg s rs (X G : list nat -> R) us :
+  orthonormal Rops s rs us -> (forall j, inb rs j -> G j = project Rops s X us j) ->
+  0 < normsq Rops s X -> finite_report (hooi_err2 Rops s rs X G) (normsq Rops s X).
+Proof.
+  intros Ho HG Hx. apply finite_report_of_nonneg; [|exact Hx].
+  rewrite <- (hooi_error_identity Rops Rth s rs X G us Ho HG). apply dist2_nonneg.
+Qed.
+Theorem parafac2_argument_nonneg I K Rk J X P A Bm C :
+  0 < p2_normX Rops I K J X ->
+  finite_report (p2_err2_fast Rops I K Rk J X P A Bm C (p2_tmp_proj Rops Rk J X P A Bm)) (p2_normX Rops I K J X).
+Proof.
+  intros Hx. apply finite_report_of_nonneg; [|exact Hx]. rewrite (p2_err2_fast_proj_correct Rops Rth). apply p2_true_nonneg.
+Qed.
+Theorem tr_argument_nonneg s (X : list nat -> R) r0 cores d : 0 < normsq Rops s X ->
+  finite_report (ls_residual2 Rops s X r0 cores d) (normsq Rops s X).
+Proof.
+  intros Hx. apply finite_report_of_nonneg; [|exact Hx]. unfold ls_residual2.
+  apply Fsum_nonneg; intros. apply Fsum_idx_nonneg; intros. apply sq_nonneg.
+Qed.
+(* the explicit residuals (masked / sparse CP, non-negative Tucker, randomised CP, CMTF): a norm of a difference *)
+Theorem explicit_argument_nonneg s (X L : list nat -> R) : 0 < normsq Rops s X -> finite_report (dist2 Rops s X L) (normsq Rops s X).
+Proof. intros Hx. apply finite_report_of_nonneg; [apply dist2_nonneg | exact Hx]. Qed.
+(* the one-sided statement about rounding: if the computed argument differs from the exact one by delta, the guarded value is still the
+   square root of a non-negative number, and it is the exact report whenever delta = 0 *)
+Theorem rounding_is_the_only_source q nx delta : 0 <= q -> 0 < nx ->
+  sqrt_arg_ok (Rabs (q + delta)) /\ (delta = 0 -> reported (q + delta) nx = rel_error q nx) /\
+  (q + delta < 0 -> ~ sqrt_arg_ok (q + delta)).
+Proof.
+  intros Hq Hn. split; [apply Rabs_pos|]. split.
+  - intros ->. rewrite Rplus_0_r. now apply reported_of_nonneg.
+  - unfold sqrt_arg_ok. lra.
+Qed.
+Theorem tr_and_explicit_arguments_nonneg (s : list nat) (X L : list nat -> R) (r0 : nat) (cores : list (@core R)) (d : nat) :
+  0 < normsq Rops s X ->
+  finite_report (ls_residual2 Rops s X r0 cores d) (normsq Rops s X) /\ finite_report (dist2 Rops s X L) (normsq Rops s X).
+Proof. intros. split; [now apply tr_argument_nonneg | now apply explicit_argument_nonneg]. Qed.
